@@ -99,7 +99,9 @@ Judge(r, s, hk) ==
       agree == CmpState(L, s) = {}
   IN
   CASE Mode = "C01" ->
-         IF ~agree \/ ~WellFormed(s) THEN <<FALSE, {}>> ELSE <<TRUE, MovegenFails(r, s)>>
+         \* judged against the position the rules say has been reached (s), whatever the engine believes:
+         \* a board that has drifted from the game offers the wrong moves for it
+         IF ~WellFormed(s) THEN <<FALSE, {}>> ELSE <<TRUE, MovegenFails(r, s)>>
     [] Mode = "C03" ->
          IF r.ev = "make" THEN <<TRUE, CmpState(L, s) \cup HistFails(r, hk)>>
          ELSE IF ~agree THEN <<FALSE, {}>> ELSE <<TRUE, {}>>
@@ -200,8 +202,8 @@ ProbeFails(r) ==
                THEN Names({<<"fen-twin-key", r.s.k = c.s.k>>, <<"fen-twin-check", r.s.chk = c.s.chk>>})
                ELSE {})
     [] Mode = "C04" ->
-         IF ~loadedOK THEN {} ELSE
-         KeyFails(r, P)
+         (IF loadedOK THEN KeyFails(r, P) ELSE {})
+         \* "loading that position from FEN gives that key too" is C04's own statement, whoever is at fault
          \cup (IF r.kind \in {"same", "same4"} /\ ~oos
                THEN Names({<<"fen-vs-play-key", r.s.k = c.s.k>>}) ELSE {})
     [] Mode = "C17" ->
